@@ -3,6 +3,7 @@
   Model: MitmVerif/Model/C01.lean (mitmproxy's functions + `Ref`, the strict RFC 9112 reader used as SPEC).
 -/
 import MitmVerif.Lemmas.C01_Roundtrip
+import MitmVerif.Lemmas.C01_Fold
 namespace MitmVerif.Props.C01
 open MitmVerif MitmVerif.C01
 
@@ -374,13 +375,15 @@ Proved:
     `…_chunked_partial`, and `forward_stream_roundtrip_nofold` (pipelined messages, by induction);
   * `relay_response_roundtrip` (responses in the context of the request method: HEAD / 1xx / 204 / 304 shortcuts,
     Content-Length, chunked re-framing, read-until-close; fold-free values).
-Not proved: messages whose field values contain obs-fold.  The fields are then read back as `Ref.unfold` of the recorded ones
-(instance checked by `rfl` below, and by the oracle on the real layer).  What is missing is exactly one normalisation lemma,
-`ObsFoldNormalisation` below: reading the lines of `name ": " v CRLF` (where `valueOk v`, so every CR in `v` is followed by LF
-and every LF by SP/HTAB) with `Ref.headLines` + `Ref.fieldsAux` yields the single field `(name, Ref.unfold v)`; with it
-`head_lines_fields` generalises verbatim (the rest of the proofs does not look at the values). -/
+Obs-fold: `forward_request_roundtrip_fold` and `relay_response_roundtrip_fold` prove the same round trips for field values
+given by their CRLF-separated parts (`PField`: `q0 CRLF q1 … qk`, continuations starting with SP/HTAB — the shape `_read_headers`
+builds); the fields are read back as `Ref.unfold` of the recorded ones (`obs_fold_field`, `unfold_join` in Lemmas/C01_Fold.lean).
+Still open: (1) `FramingFieldsPlain` (a folded Content-Length / Transfer-Encoding is rejected by `validate_headers`) is a
+hypothesis of the fold theorems, not derived; (2) values folded with a bare LF (no CR) — possible only through addon edits —
+are not covered; (3) the pipelined-stream theorem exists in the fold-free form only; (4) `ObsFoldNormalisation` below is the
+byte-level formulation of the same lemma over `valueOk` values (not proved in that form; `obs_fold_field` is its structural form). -/
 
-/-- the missing lemma for obs-fold (stated, not proved) -/
+/-- byte-level formulation of the obs-fold lemma (stated; proved in the structural form `obs_fold_field`) -/
 def ObsFoldNormalisation : Prop :=
   ∀ (name v tail : Bytes) (ls : List Bytes) (acc : List Field),
     isToken name = true → valueOk v = true →
@@ -989,6 +992,383 @@ theorem relay_response_roundtrip (reqMethod : Bytes) (r : RespHead) (body rest :
         rw [hpay']; simp [hnc, hnh.1, h204.1, h204.2] <;> (intro hbe; cases body <;> simp_all)
       subst hp
       exact ⟨.eof, by simp⟩
+
+/-! ### obs-fold: the same round trips for field values given by their CRLF-separated parts -/
+
+/-- generic head reading for folded fields: a clean first line, validated fields whose values are `PField`s -/
+private theorem head_lines_fields_fold {kind : Kind} {version reason : Bytes} (first : Bytes) (pfs : List PField)
+    (hv : validateHeaders kind version reason (pfs.map PField.field) = true) (hfirst : cleanLine first ∧ first ≠ [])
+    (hnames : ∀ pf ∈ pfs, (10 : UInt8) ∉ pf.name) (hok : ∀ pf ∈ pfs, pf.ok) (tail : Bytes) :
+    Ref.headLines ((first ++ crlf ++ assembleFields (pfs.map PField.field) ++ crlf ++ tail).length + 1)
+        (first ++ crlf ++ assembleFields (pfs.map PField.field) ++ crlf ++ tail) =
+        .ok (first :: pfs.flatMap PField.lines, tail) ∧
+    Ref.fields (pfs.flatMap PField.lines) = .ok (pfs.map PField.ufield) := by
+  have hvc := (validate_cases hv).1
+  have htok : ∀ pf ∈ pfs, isToken pf.name = true ∧ pf.ok := by
+    intro pf hpf
+    refine ⟨?_, hok pf hpf⟩
+    have h1 := (hvc pf.field (List.mem_map_of_mem hpf)).1
+    have h2 : dropFinalLF pf.name = pf.name := by
+      apply dropFinalLF_id
+      intro e
+      exact hnames pf hpf (List.mem_of_getLast? e)
+    simpa [nameOk, PField.field, h2] using h1
+  have hwire : first ++ crlf ++ assembleFields (pfs.map PField.field) ++ crlf ++ tail =
+      renderLines (first :: pfs.flatMap PField.lines) ++ crlf ++ tail := by
+    simp only [assembleFields_fold, renderLines, List.append_assoc]
+  have hlines : ∀ l ∈ first :: pfs.flatMap PField.lines, cleanLine l ∧ l ≠ [] := by
+    intro l hl
+    simp only [List.mem_cons, List.mem_flatMap] at hl
+    rcases hl with rfl | ⟨pf, hpf, hl⟩
+    · exact hfirst
+    · exact lines_clean pf (htok pf hpf).1 (hok pf hpf) l hl
+  constructor
+  · rw [hwire]
+    apply headLines_render _ _ _ hlines
+    have := renderLines_length (first :: pfs.flatMap PField.lines)
+    simp only [List.length_append] at this ⊢
+    omega
+  · have := fieldsAux_fold pfs [] htok
+    simp only [List.reverse_nil, List.nil_append] at this
+    rw [Ref.fields, this]
+    have hnul : ((pfs.map PField.ufield).all fun f => !f.2.contains 0) = true := by
+      apply List.all_eq_true.mpr
+      intro f hf
+      obtain ⟨pf, hpf, rfl⟩ := List.mem_map.mp hf
+      have := ufield_no_nul pf (hok pf hpf)
+      simpa using this
+    simp only [hnul, ↓reduceIte]
+
+private theorem head_parse_fold (r : ReqHead) (hv : validateHeaders .request r.version [] r.fields = true)
+    (hl : RequestLineOk r) (pfs : List PField) (hpf : r.fields = pfs.map PField.field) (hok : ∀ pf ∈ pfs, pf.ok) (tail : Bytes) :
+    ∃ line, Ref.headLines ((assembleRequestHead r ++ tail).length + 1) (assembleRequestHead r ++ tail) =
+        .ok (line :: pfs.flatMap PField.lines, tail) ∧
+      Ref.requestLine line = some (r.method, requestTarget r, r.version) ∧
+      Ref.fields (pfs.flatMap PField.lines) = .ok (pfs.map PField.ufield) := by
+  obtain ⟨hm, hmw, ht, htw, hver, hnames⟩ := hl
+  obtain ⟨hreq, hclean, hlne⟩ := requestLine_assembled hm hmw ht htw hver
+  have hnames' : ∀ pf ∈ pfs, (10 : UInt8) ∉ pf.name := by
+    intro pf h
+    have := hnames pf.field (by rw [hpf]; exact List.mem_map_of_mem h)
+    simpa [PField.field] using this
+  rw [hpf] at hv
+  obtain ⟨h1, h2⟩ := head_lines_fields_fold (r.method ++ [32] ++ requestTarget r ++ [32] ++ r.version) pfs hv ⟨hclean, hlne⟩ hnames' hok tail
+  refine ⟨_, ?_, hreq, h2⟩
+  have : assembleRequestHead r ++ tail =
+      r.method ++ [32] ++ requestTarget r ++ [32] ++ r.version ++ crlf ++ assembleFields (pfs.map PField.field) ++ crlf ++ tail := by
+    simp [assembleRequestHead, hpf, List.append_assoc]
+  rw [this]; exact h1
+
+private theorem frr_fold_nte (r : ReqHead) (body rest : Bytes)
+    (hv : validateHeaders .request r.version [] r.fields = true) (hl : RequestLineOk r)
+    (hte : getAll r.fields sTE = [])
+    (pfs : List PField) (hpf : r.fields = pfs.map PField.field) (hok : ∀ pf ∈ pfs, pf.ok) (hfp : FramingFieldsPlain pfs)
+    (hb : BodyConsistent r body) :
+    ∃ fr, Ref.parseRequest (forwardRequest r body ++ rest) =
+      .ok (⟨r.method, requestTarget r, r.version, pfs.map PField.ufield, body, fr⟩, rest) := by
+  have hnc : sendsChunked r.fields = false := by simp [sendsChunked, getJoined_none hte]
+  have hwire : forwardRequest r body ++ rest = assembleRequestHead r ++ (body ++ rest) := by
+    simp [forwardRequest, hnc, List.append_assoc]
+  obtain ⟨line, hhead, hreq, hflds⟩ := head_parse_fold r hv hl pfs hpf hok (body ++ rest)
+  obtain ⟨sz, fr, hsz, hfr, hag⟩ := framing_agrees .request r.version [] [] r.fields hv
+  have hsz' : requestBodySize r = some sz := by simpa [proxySize, requestBodySize] using hsz
+  unfold Ref.parseRequest
+  rw [hwire, hhead]
+  have hfrF : Ref.framing (pfs.map PField.ufield) r.version .request [] = .ok fr := by
+    rw [framing_fold pfs hok hfp, ← hpf]; exact hfr
+  simp only [hreq, hflds, hfrF]
+  unfold BodyConsistent at hb
+  rw [hsz'] at hb
+  cases sz with
+  | chunked =>
+    exfalso
+    simp [requestBodySize, sizeFromHeaders, getJoined_none hte] at hsz'
+    cases hc : getJoined r.fields sCL with
+    | none => simp [hc] at hsz'
+    | some cl =>
+      simp [hc] at hsz'
+      split at hsz'
+      · simp at hsz'
+      · cases hp : parseCL cl <;> simp [hp] at hsz'
+  | untilEof => exact absurd hb (by simp)
+  | len n =>
+    simp only at hb
+    cases fr with
+    | none =>
+      simp only [Agree] at hag
+      subst hag
+      have : body = [] := by cases body <;> simp at hb ⊢
+      subst this
+      exact ⟨.none, by simp⟩
+    | cl m =>
+      simp only [Agree] at hag
+      subst hag
+      refine ⟨.cl n, ?_⟩
+      have h1 : ¬ (body ++ rest).length < n := by simp; omega
+      simp only [h1, ↓reduceIte]
+      rw [List.take_append_of_le_length (by omega), List.drop_append_of_le_length (by omega)]
+      simp [← hb]
+    | chunked => simp [Agree] at hag
+    | eof => simp [Agree] at hag
+
+
+private theorem frr_fold_te (r : ReqHead) (body rest : Bytes)
+    (hv : validateHeaders .request r.version [] r.fields = true) (hl : RequestLineOk r)
+    (hte : getAll r.fields sTE ≠ [])
+    (pfs : List PField) (hpf : r.fields = pfs.map PField.field) (hok : ∀ pf ∈ pfs, pf.ok) (hfp : FramingFieldsPlain pfs) :
+    Ref.parseRequest (forwardRequest r body ++ rest) =
+      .ok (⟨r.method, requestTarget r, r.version, pfs.map PField.ufield, body, .chunked⟩, rest) := by
+  -- validate_headers leaves exactly one Transfer-Encoding value, classified "chunked final"
+  obtain ⟨_, hc⟩ := validate_cases hv
+  rcases hc with ⟨t, cls, w, hte1, hcl, hver, hpt, hk⟩ | ⟨c, n, hte0, _, _⟩ | ⟨hte0, _⟩
+  · simp only at hk
+    subst hk
+    have hsc : sendsChunked r.fields = true := by
+      simp [sendsChunked, getJoined_single hte1, sendsChunked_of_parseTE hpt]
+    obtain ⟨sz, fr, hsz, hfr, hag⟩ := framing_agrees .request r.version [] [] r.fields hv
+    have hsz' : sz = .chunked := by
+      have htne : t ≠ [] := parseTE_nonempty hpt
+      simp [proxySize, sizeFromHeaders, getJoined_single hte1, htne, hpt] at hsz
+      exact hsz.symm
+    subst hsz'
+    have hfr' : Ref.framing r.fields r.version .request [] = .ok .chunked := by
+      cases fr <;> simp [Agree] at hag
+      exact hfr
+    let payload := (if body.isEmpty then [] else chunk body) ++ lastChunk
+    have hwire : forwardRequest r body ++ rest = assembleRequestHead r ++ (payload ++ rest) := by
+      simp [forwardRequest, hsc, payload, List.append_assoc]
+    obtain ⟨line, hhead, hreq, hflds⟩ := head_parse_fold r hv hl pfs hpf hok (payload ++ rest)
+    unfold Ref.parseRequest
+    rw [hwire, hhead]
+    have hfrF : Ref.framing (pfs.map PField.ufield) r.version .request [] = .ok .chunked := by
+      rw [framing_fold pfs hok hfp, ← hpf]; exact hfr'
+    simp only [hreq, hflds, hfrF]
+    have hchunk : Ref.chunkedBody ((payload ++ rest).length + 1) (payload ++ rest) [] false = .ok (body, rest) := by
+      by_cases hb : body = []
+      · subst hb
+        have hl5 : (payload ++ rest).length + 1 = (rest.length + 4) + 2 := by simp [payload, lastChunk]
+        rw [hl5]
+        simpa [payload] using chunkedBody_last (rest.length + 4) [] rest
+      · have hbe : body.isEmpty = false := by cases body <;> simp at hb ⊢
+        have hp : payload ++ rest = chunk body ++ lastChunk ++ rest := by simp [payload, hbe]
+        rw [hp]
+        have : (chunk body ++ lastChunk ++ rest).length + 1 = ((chunk body ++ lastChunk ++ rest).length - 2) + 3 := by
+          simp [lastChunk]; omega
+        rw [this]
+        exact chunkedBody_chunk _ body rest hb
+    rw [hchunk]
+  · exact absurd hte0 hte
+  · exact absurd hte0 hte
+
+
+/-- **forward_request_roundtrip_fold**: `ForwardRequestRoundtrip` for field values WITH obs-fold: the recorded fields are
+    `(name, q0 CRLF q1 CRLF … qk)` with every continuation `qi` starting with SP/HTAB (the shape `_read_headers` builds), and the
+    reference reader reads them back as `(name, Ref.unfold value)`; method, target, version and body exactly; Content-Length,
+    no body and the chunked re-framing.  Hypothesis `FramingFieldsPlain`: Transfer-Encoding / Content-Length themselves are not
+    folded (validate_headers rejects a folded one; that implication is not derived here). -/
+theorem forward_request_roundtrip_fold (r : ReqHead) (body rest : Bytes)
+    (hv : validateHeaders .request r.version [] r.fields = true) (hl : RequestLineOk r)
+    (pfs : List PField) (hpf : r.fields = pfs.map PField.field) (hok : ∀ pf ∈ pfs, pf.ok) (hfp : FramingFieldsPlain pfs)
+    (hb : BodyConsistent r body) :
+    ∃ fr, Ref.parseRequest (forwardRequest r body ++ rest) =
+      .ok (⟨r.method, requestTarget r, r.version, pfs.map PField.ufield, body, fr⟩, rest) := by
+  by_cases hte : getAll r.fields sTE = []
+  · exact frr_fold_nte r body rest hv hl hte pfs hpf hok hfp hb
+  · exact ⟨.chunked, frr_fold_te r body rest hv hl hte pfs hpf hok hfp⟩
+
+/-- **relay_response_roundtrip_fold**: `relay_response_roundtrip` for field values with obs-fold (fields read back as
+    `Ref.unfold` of the recorded ones), same hypotheses otherwise -/
+theorem relay_response_roundtrip_fold (reqMethod : Bytes) (r : RespHead) (body rest : Bytes) (eof : Bool)
+    (hv : validateHeaders (.response r.status) r.version r.reason r.fields = true)
+    (hhd : versionOk r.version = true ∧ (100 ≤ r.status ∧ r.status ≤ 999) ∧ cleanLine r.reason)
+    (pfs : List PField) (hpf : r.fields = pfs.map PField.field) (hnm : ∀ pf ∈ pfs, (10 : UInt8) ∉ pf.name) (hokf : ∀ pf ∈ pfs, pf.ok)
+    (hfp : FramingFieldsPlain pfs)
+    (hconn : ¬(asciiUpper reqMethod = sCONNECT ∧ 200 ≤ r.status ∧ r.status ≤ 299))
+    (hb : RespBodyConsistent reqMethod r body rest eof) :
+    ∃ fr, Ref.parseResponse reqMethod eof (relayResponse reqMethod r body ++ rest) =
+      .ok (⟨r.version, decDigits r.status, r.reason, pfs.map PField.ufield, body, fr⟩, rest) := by
+  obtain ⟨hver, hst, hreason⟩ := hhd
+  have hvF : validateHeaders (.response r.status) r.version r.reason (pfs.map PField.field) = true := by rw [← hpf]; exact hv
+  obtain ⟨line, hline⟩ : ∃ l, l = r.version ++ [32] ++ decDigits r.status ++ [32] ++ r.reason := ⟨_, rfl⟩
+  obtain ⟨hsl, hdig, hclean, hlne⟩ := statusLine_assembled hver hst hreason
+  rw [← hline] at hsl hdig hclean hlne
+  -- payload written after the head
+  obtain ⟨payload, hpay⟩ : ∃ p, relayResponse reqMethod r body = assembleResponseHead r ++ p := ⟨_, rfl⟩
+  have hhead_eq : assembleResponseHead r = line ++ crlf ++ assembleFields r.fields ++ crlf := by
+    simp [assembleResponseHead, hline, List.append_assoc]
+  obtain ⟨hhead, hflds⟩ := head_lines_fields_fold line pfs hvF ⟨hclean, hlne⟩ hnm hokf (payload ++ rest)
+  rw [← hpf] at hhead
+  have hwire : relayResponse reqMethod r body ++ rest = line ++ crlf ++ assembleFields r.fields ++ crlf ++ (payload ++ rest) := by
+    rw [hpay, hhead_eq]; simp [List.append_assoc]
+  obtain ⟨sz, fr, hsz, hfr, hag⟩ := framing_agrees (.response r.status) r.version r.reason reqMethod r.fields hv
+  have hsz' : responseBodySize reqMethod r = some sz := by
+    have : (⟨[], r.status, [], r.fields⟩ : RespHead) = ⟨[], r.status, [], r.fields⟩ := rfl
+    simpa [proxySize, responseBodySize] using hsz
+  unfold Ref.parseResponse
+  rw [hwire, hhead]
+  have hfrF : Ref.framing (pfs.map PField.ufield) r.version (.response r.status) reqMethod = .ok fr := by
+    rw [framing_fold pfs hokf hfp, ← hpf]; exact hfr
+  simp only [hsl, hflds, hfrF, hdig]
+  unfold RespBodyConsistent at hb
+  rw [hsz'] at hb
+  -- what the payload is
+  have hpay' : payload =
+      (if sendsChunked r.fields then
+         (if (!body.isEmpty && !(asciiUpper reqMethod = sHEAD || r.status = 204 || r.status = 304)) then chunk body else []) ++
+         (if asciiUpper reqMethod ≠ sHEAD ∧ !noBodyStatus r.status then lastChunk else [])
+       else (if (!body.isEmpty && !(asciiUpper reqMethod = sHEAD || r.status = 204 || r.status = 304)) then body else [])) := by
+    have := hpay
+    simp only [relayResponse] at this
+    exact (List.append_cancel_left this).symm
+  by_cases hnb : Ref.noBody (.response r.status) reqMethod = true
+  · -- HEAD / 1xx / 204 / 304: nothing follows the head
+    have hp0 := proxy_nobody r.fields hnb
+    rw [hsz] at hp0
+    simp at hp0; subst hp0
+    simp only at hb
+    have hbody : body = [] := by cases body <;> simp at hb ⊢
+    subst hbody
+    have hfr0 : fr = .none := by
+      have := hfr
+      unfold Ref.framing at this
+      -- with noBody the reference reader answers `none` once the checks passed: read it off `Agree`
+      cases fr <;> simp [Agree] at hag ⊢
+      · rename_i m
+        -- `.cl m` is impossible when noBody holds
+        exfalso
+        revert this
+        simp only [hnb]
+        intro this
+        split at this
+        · simp at this
+        · split at this
+          · simp at this
+          · split at this
+            · simp at this
+            · simp at this
+    subst hfr0
+    have hnl : (asciiUpper reqMethod ≠ sHEAD ∧ (!noBodyStatus r.status) = true) → False := by
+      intro hh
+      simp only [Ref.noBody, Bool.or_eq_true, Bool.and_eq_true, decide_eq_true_eq] at hnb
+      rcases hnb with (h | h) | h
+      · exact hh.1 h
+      · simp [h] at hh
+      · exact hconn ⟨h.1.1, h.1.2, h.2⟩
+    have : payload = [] := by
+      rw [hpay']
+      by_cases hsc : sendsChunked r.fields = true
+      · simp [hsc]
+        intro h1 h2
+        exact (hnl ⟨h1, by simpa using h2⟩).elim
+      · simp [hsc]
+    subst this
+    exact ⟨.none, by simp⟩
+  · have hnb' : Ref.noBody (.response r.status) reqMethod = false := by simpa using hnb
+    -- data is written whenever the body is non-empty
+    have hnh : asciiUpper reqMethod ≠ sHEAD ∧ noBodyStatus r.status = false := by
+      simp only [Ref.noBody, Bool.or_eq_false_iff, Bool.and_eq_false_iff, decide_eq_false_iff_not] at hnb'
+      exact ⟨hnb'.1.1, hnb'.1.2⟩
+    have hnot : (asciiUpper reqMethod = sHEAD || r.status = 204 || r.status = 304) = false := by
+      have h2 := hnh.2
+      simp only [noBodyStatus, Bool.or_eq_false_iff, decide_eq_false_iff_not] at h2
+      simp [hnh.1, h2.1.2, h2.2]
+    have h204 : r.status ≠ 204 ∧ r.status ≠ 304 := by
+      have h2 := hnh.2
+      simp only [noBodyStatus, Bool.or_eq_false_iff, decide_eq_false_iff_not] at h2
+      exact ⟨h2.1.2, h2.2⟩
+    obtain ⟨_, hcases⟩ := validate_cases hv
+    cases sz with
+    | len n =>
+      simp only at hb
+      -- no Transfer-Encoding
+      have hte : getAll r.fields sTE = [] := by
+        rcases hcases with ⟨t, cls, w, hte1, _, _, hpt, _⟩ | ⟨c, m, hte0, _, _⟩ | ⟨hte0, _⟩
+        · exfalso
+          have htne := parseTE_nonempty hpt
+          rw [proxy_body r.fields hnb'] at hsz
+          cases cls <;> simp [sizeFromHeaders, getJoined_single hte1, htne, hpt] at hsz
+        · exact hte0
+        · exact hte0
+      have hnc : sendsChunked r.fields = false := by simp [sendsChunked, getJoined_none hte]
+      have hp : payload = body := by
+        rw [hpay']; simp [hnc, hnh.1, h204.1, h204.2] <;> (intro hbe; cases body <;> simp_all)
+      subst hp
+      cases fr with
+      | none =>
+        simp only [Agree] at hag; subst hag
+        have : payload = [] := by cases payload <;> simp at hb ⊢
+        subst this
+        exact ⟨.none, by simp⟩
+      | cl m =>
+        simp only [Agree] at hag; subst hag
+        refine ⟨.cl n, ?_⟩
+        have h1 : ¬ (payload ++ rest).length < n := by simp; omega
+        simp only [h1, ↓reduceIte]
+        rw [List.take_append_of_le_length (by omega), List.drop_append_of_le_length (by omega)]
+        simp [← hb]
+      | chunked => simp [Agree] at hag
+      | eof => simp [Agree] at hag
+    | chunked =>
+      have hfrc : fr = .chunked := by cases fr <;> simp [Agree] at hag ⊢
+      subst hfrc
+      have hsc : sendsChunked r.fields = true := by
+        rcases hcases with ⟨t, cls, w, hte1, _, _, hpt, _⟩ | ⟨c, m, hte0, hcl1, hpc⟩ | ⟨hte0, hcl0⟩
+        · have htne := parseTE_nonempty hpt
+          rw [proxy_body r.fields hnb'] at hsz
+          cases cls with
+          | chunkedFinal => simp [sendsChunked, getJoined_single hte1, sendsChunked_of_parseTE hpt]
+          | other => simp [sizeFromHeaders, getJoined_single hte1, htne, hpt] at hsz
+        · exfalso
+          rw [proxy_body r.fields hnb'] at hsz
+          have hcne : c ≠ [] := by intro e; subst e; simp [parseCL, dropFinalLF, clDigits] at hpc
+          simp [sizeFromHeaders, getJoined_none hte0, getJoined_single hcl1, hcne, hpc] at hsz
+        · exfalso
+          rw [proxy_body r.fields hnb'] at hsz
+          simp [sizeFromHeaders, getJoined_none hte0, getJoined_none hcl0] at hsz
+      have hlast : (asciiUpper reqMethod ≠ sHEAD ∧ (!noBodyStatus r.status) = true) := ⟨hnh.1, by simp [hnh.2]⟩
+      refine ⟨.chunked, ?_⟩
+      have hchunk : Ref.chunkedBody ((payload ++ rest).length + 1) (payload ++ rest) [] false = .ok (body, rest) := by
+        by_cases hbe : body = []
+        · subst hbe
+          have hp : payload = lastChunk := by rw [hpay']; simp [hsc, hlast]
+          subst hp
+          have hl5 : (lastChunk ++ rest).length + 1 = (rest.length + 4) + 2 := by simp [lastChunk]
+          rw [hl5]
+          exact chunkedBody_last (rest.length + 4) [] rest
+        · have hbne : body.isEmpty = false := by cases body <;> simp at hbe ⊢
+          have hp : payload = chunk body ++ lastChunk := by rw [hpay']; simp [hsc, hlast, hbne, hnh.1, h204.1, h204.2]
+          subst hp
+          have : (chunk body ++ lastChunk ++ rest).length + 1 = ((chunk body ++ lastChunk ++ rest).length - 2) + 3 := by
+            simp [lastChunk]; omega
+          rw [this]
+          exact chunkedBody_chunk _ body rest hbe
+      rw [hchunk]
+    | untilEof =>
+      obtain ⟨heof, hrest⟩ := hb
+      subst heof; subst hrest
+      have hfre : fr = .eof := by cases fr <;> simp [Agree] at hag ⊢
+      subst hfre
+      have hnc : sendsChunked r.fields = false := by
+        rcases hcases with ⟨t, cls, w, hte1, _, _, hpt, _⟩ | ⟨c, m, hte0, _, _⟩ | ⟨hte0, _⟩
+        · have htne := parseTE_nonempty hpt
+          rw [proxy_body r.fields hnb'] at hsz
+          cases cls with
+          | chunkedFinal => simp [sizeFromHeaders, getJoined_single hte1, htne, hpt] at hsz
+          | other => simp [sendsChunked, getJoined_single hte1, not_sendsChunked_of_parseTE_other hpt]
+        · simp [sendsChunked, getJoined_none hte0]
+        · simp [sendsChunked, getJoined_none hte0]
+      have hp : payload = body := by
+        rw [hpay']; simp [hnc, hnh.1, h204.1, h204.2] <;> (intro hbe; cases body <;> simp_all)
+      subst hp
+      exact ⟨.eof, by simp⟩
+
+/-- a folded field satisfying the hypotheses of the fold theorems: `X: a CRLF SP b` -/
+example : (⟨[88], [97], [[32, 98]]⟩ : PField).ok := by
+  refine ⟨⟨by decide, by decide⟩, by decide, ?_⟩
+  intro q hq
+  simp at hq; subst hq
+  exact ⟨⟨by decide, by decide⟩, by decide, 32, [98], rfl, Or.inl rfl⟩
+example : (⟨[88], [97], [[32, 98]]⟩ : PField).ufield = ([88], [97, 32, 98]) := by decide
 
 /-- instances (the statement holds on concrete messages, and is not vacuous) -/
 example : Ref.parseRequest (forwardRequest ⟨[71,69,84], [], [], [47], sHttp11, [([72,111,115,116], [104]), (sCL, [51])]⟩ [97,98,99] ++ [88]) =
